@@ -61,9 +61,35 @@ pub struct IoPlan {
     pub eintr_pct: u8,
     #[serde(default)]
     pub faults: Vec<Fault>,
+    /// which `io::ErrorKind` the medium's errors carry (EIO at call / offset, failed seek, write error, flush error;
+    /// a full disk is always ENOSPC): 0 = drawn from `seed` (half of the plans EIO, the others InvalidData, TimedOut,
+    /// UnexpectedEof, PermissionDenied, a custom `Other`), n > 0 = kind n - 1 of `ERR_KINDS`
+    #[serde(default)]
+    pub err_kind: u8,
 }
 
+pub const ERR_LABELS: [&str; 6] = ["errkind.eio", "errkind.invalid_data", "errkind.timed_out", "errkind.unexpected_eof", "errkind.permission_denied", "errkind.custom_other"];
+pub const ERR_KINDS: [&str; 6] = ["eio", "invalid_data", "timed_out", "unexpected_eof", "permission_denied", "custom_other"];
+
 impl IoPlan {
+    /// index into `ERR_KINDS`
+    pub fn kind(&self) -> u8 {
+        if self.err_kind != 0 {
+            return (self.err_kind - 1) % ERR_KINDS.len() as u8;
+        }
+        const TABLE: [u8; 10] = [0, 0, 0, 0, 0, 1, 2, 3, 4, 5];
+        TABLE[((self.seed ^ (self.seed >> 17) ^ (self.seed >> 41)) % 10) as usize]
+    }
+    fn error(&self) -> io::Error {
+        match self.kind() {
+            1 => io::Error::new(io::ErrorKind::InvalidData, "sim: stream is corrupt"),
+            2 => io::Error::new(io::ErrorKind::TimedOut, "sim: timed out"),
+            3 => io::Error::new(io::ErrorKind::UnexpectedEof, "sim: unexpected end of stream"),
+            4 => io::Error::new(io::ErrorKind::PermissionDenied, "sim: permission denied"),
+            5 => io::Error::new(io::ErrorKind::Other, "sim: custom error"),
+            _ => eio(),
+        }
+    }
     pub fn plain() -> IoPlan {
         IoPlan::default()
     }
@@ -90,11 +116,12 @@ impl IoPlan {
                 _ => *rng.pick(&[0u8, 0, 5, 20, 50]),
             },
             faults: vec![],
+            err_kind: 0,
         }
     }
     /// the same plan with every non-default legal behaviour removed (shrinker step)
     pub fn calm(&self) -> IoPlan {
-        IoPlan { seed: 0, max_chunk: 0, short_pct: 0, eintr_pct: 0, faults: self.faults.clone() }
+        IoPlan { seed: 0, max_chunk: 0, short_pct: 0, eintr_pct: 0, faults: self.faults.clone(), err_kind: self.kind() + 1 }
     }
 }
 
@@ -207,15 +234,16 @@ impl Read for SimReader {
         // faults first
         if self.eio_sticky {
             self.log.u64(0xE10);
-            return Err(eio());
+            return Err(self.plan.error());
         }
         for f in &self.plan.faults {
             if let Fault::Eio { at_call, sticky } = f {
                 if *at_call == call {
                     self.eio_sticky = *sticky;
                     self.stats.fired.push("eio");
+                    self.stats.fired.push(ERR_LABELS[self.plan.kind() as usize]);
                     self.log.u64(0xE10);
-                    return Err(eio());
+                    return Err(self.plan.error());
                 }
             }
         }
@@ -245,9 +273,10 @@ impl Read for SimReader {
                 if self.pos + k > off {
                     if self.pos >= off {
                         self.stats.fired.push("eio_at_offset");
+                    self.stats.fired.push(ERR_LABELS[self.plan.kind() as usize]);
                         self.eio_sticky = true;
                         self.log.u64(0xE10);
-                        return Err(eio());
+                        return Err(self.plan.error());
                     }
                     k = off - self.pos; // deliver what lies before the bad sector
                 }
@@ -285,8 +314,9 @@ impl Seek for SimReader {
             if let Fault::SeekFail { at_call } = f {
                 if *at_call == call {
                     self.stats.fired.push("seek_fail");
+                    self.stats.fired.push(ERR_LABELS[self.plan.kind() as usize]);
                     self.log.u64(0xE10);
-                    return Err(eio());
+                    return Err(self.plan.error());
                 }
             }
         }
@@ -307,6 +337,14 @@ impl Seek for SimReader {
             None => Err(io::Error::new(io::ErrorKind::InvalidInput, "sim: seek before start")),
         }
     }
+}
+
+/// calls a sink answers before it declares the writer a runaway (the largest legitimate writer, a jar of a few
+/// hundred KiB written one byte per call, stays far below)
+pub const WRITER_FUEL: u64 = 3_000_000;
+thread_local! {
+    /// set when a `SimWriter` on this thread ran out of fuel; read and reset by the engine after each run
+    pub static SINK_RUNAWAY: std::cell::Cell<bool> = const { std::cell::Cell::new(false) };
 }
 
 pub struct SimWriter {
@@ -377,6 +415,11 @@ impl Write for SimWriter {
     fn write(&mut self, buf: &[u8]) -> io::Result<usize> {
         self.stats.calls += 1;
         self.stats.writes += 1;
+        if self.stats.calls > WRITER_FUEL {
+            // a writer that keeps calling a sink which accepts nothing (or fails) is a runaway, not a schedule
+            SINK_RUNAWAY.with(|c| c.set(true));
+            return Err(io::Error::new(io::ErrorKind::Other, "sim: sink fuel exhausted"));
+        }
         self.last_event_was_ok_flush = false;
         let call = self.write_calls;
         self.write_calls += 1;
@@ -384,7 +427,7 @@ impl Write for SimWriter {
         self.log.u64(buf.len() as u64);
         if self.eio_sticky {
             self.any_error_returned = true;
-            return Err(eio());
+            return Err(self.plan.error());
         }
         if self.zero_sticky && !buf.is_empty() {
             return Ok(0);
@@ -394,9 +437,10 @@ impl Write for SimWriter {
                 Fault::WriteEio { at_call, sticky } if *at_call == call => {
                     self.eio_sticky = *sticky;
                     self.stats.fired.push("write_eio");
+                    self.stats.fired.push(ERR_LABELS[self.plan.kind() as usize]);
                     self.any_error_returned = true;
                     self.log.u64(0xE10);
-                    return Err(eio());
+                    return Err(self.plan.error());
                 }
                 Fault::WriteZero { at_call } if *at_call <= call && !buf.is_empty() => {
                     self.zero_sticky = true;
@@ -458,7 +502,7 @@ impl Write for SimWriter {
             }
             self.any_error_returned = true;
             self.last_event_was_ok_flush = false;
-            return Err(eio());
+            return Err(self.plan.error());
         }
         self.last_event_was_ok_flush = true;
         Ok(())
@@ -494,6 +538,9 @@ pub fn shrink_io(p: &IoPlan) -> Vec<IoPlan> {
     }
     if p.calm() != *p {
         c.push(p.calm());
+    }
+    if p.kind() != 0 && !p.faults.is_empty() {
+        c.push(IoPlan { err_kind: 1, ..p.clone() });
     }
     for i in 0..p.faults.len() {
         let smaller: Vec<Fault> = match &p.faults[i] {
